@@ -820,7 +820,7 @@ Definition c06z_run (which : Z) (case obs : sx) : verdict :=
 
 (* ============================ end to end: the real Pipeline.In behind the worker (which = 8) =====================
    The recording inputer of the driver hands every (offset, data) to the REAL Pipeline.In of a started pipeline (raw decoder,
-   cut_off_event_by_limit_field set): checkInputBytes inside In, event.Offset = offsets.current, message = the admitted
+   cut_off_event_by_limit_field set): checkInputBytes inside In, event.Offset = offsets.current, message = the accepted
    bytes without their newline, the cut-off flag as a field. What arrives at the OUTPUT plugin is observed.
      case = a which-0/1 case;  obs = (((event ...) cur filepos #tail skip) ...) one item per pass, event = (offset #message cut) *)
 Definition event := (Z * bytes * bool)%type.
@@ -848,7 +848,7 @@ Definition event_of_sx (s : sx) : option event :=
 Definition event_eqb (a b : event) : bool :=
   let '(o1, m1, c1) := a in let '(o2, m2, c2) := b in Z.eqb o1 o2 && bytes_eqb m1 m2 && Bool.eqb c1 c2.
 
-(* after every pass: the events that reached the output so far = the admitted lines of everything readable so far (exact:
+(* after every pass: the events that reached the output so far = the accepted lines of everything readable so far (exact:
    the junk behind a cut line never leaves In), and the saved state is the specification's *)
 Fixpoint pred_passes_e (c : wcfg) (st0 : wst) (seen : bytes) (got : list event)
          (rl : list (bytes * nat)) (obs : list sx) : bool :=
